@@ -6,7 +6,10 @@ open Lean PolyplyVerif PolyplyVerif.Links
 Requests: `{"op":"apply","input":{..}}` model of `ApplyLinks.run_molecule`;
 `{"op":"spec","input":{..}}` the specification side (`specOutput` with the independent enumeration
 `specMatches`); `{"op":"dangling","names":[..],"ixns":[..]}` the splitting of dangling interactions;
-`{"op":"order","o1":..,"r1":..,"o2":..,"r2":..}` `matchOrder`. -/
+`{"op":"order","o1":..,"r1":..,"o2":..,"r2":..}` `matchOrder`;
+`{"op":"explicit","nodes":[..],"edges":[..],"ixns":[..],"xixns":[..]}` `applyExplicit` (`apply_explicit_link`);
+`{"op":"parseedges","context":..,"negate":..,"nodes":[..],"a":{..},"b":{..}}` `parseEdgesNew` (`_parse_edges_new`);
+`{"op":"run","input":{..},"xixns":[..]}` `runMolecule` (link application followed by the explicit links). -/
 namespace PolyplyVerif.Driver.C02
 
 def strOf (j : Json) : Except String String := j.getStr?
@@ -117,6 +120,23 @@ def dlinkToJson (l : DLink) : Json :=
     ("ixns", Json.arr (l.ixns.map (fun i => Json.arr #[Json.str i.1, toJson i.2.1, toJson i.2.2])).toArray),
     ("tagged", Json.arr (l.tagged.map (fun i => Json.arr #[Json.str i.1, toJson i.2.1, toJson i.2.2.1, toJson i.2.2.2])).toArray)]
 
+/-- an interaction of a `by_atom_id` link: atom tokens are strings; `int(token)` is `String.toInt?` -/
+def xixnOf (j : Json) : Except String XIxn := do
+  pure { sect := ← strOf (← j.getObjVal? "section"),
+         atoms := (← (← arrOf (← j.getObjVal? "atoms")).mapM strOf).map String.toInt?,
+         params := ← (← arrOf (← j.getObjVal? "params")).mapM strOf,
+         imeta := ← mattrsOf (← j.getObjVal? "meta") }
+
+def xresToJson (r : Except XErr XSt) : Json :=
+  match r with
+  | .error .value => okJson [("status", Json.str "ValueError")]
+  | .error .io => okJson [("status", Json.str "IOError")]
+  | .ok s =>
+    okJson [("status", Json.str "ok"),
+            ("ixns", Json.arr (s.ixns.map (fun kv => Json.arr #[Json.str kv.1.sect, toJson kv.1.atoms, toJson kv.2.params,
+                                                         mattrsToJson kv.2.imeta])).toArray),
+            ("edges", Json.arr (s.edges.map (fun e => Json.arr #[toJson e.1, toJson e.2])).toArray)]
+
 def handle (j : Json) : Except String Json := do
   let op ← strOf (← j.getObjVal? "op")
   match op with
@@ -132,6 +152,20 @@ def handle (j : Json) : Except String Json := do
     -- specification restricted to the links the code's residue-name pre-filter lets through
     pure (okJson [("out", outputToJson (specOutput inp (specMatches inp))),
                   ("out_prefilter", outputToJson (specOutput { inp with links := inp.links.filter (prefilter inp) } (specMatches inp)))])
+  | "explicit" =>
+    -- `apply_explicit_link` on a molecule given by its nodes, edges and interactions
+    let nodes ← (← arrOf (← j.getObjVal? "nodes")).mapM natOf
+    let edges ← (← arrOf (← j.getObjVal? "edges")).mapM fun e => do
+      pure (← natOf (← e.getArrVal? 0), ← natOf (← e.getArrVal? 1))
+    let ixns ← (← arrOf (← j.getObjVal? "ixns")).mapM keyValOf
+    let xs ← (← arrOf (← j.getObjVal? "xixns")).mapM xixnOf
+    let s : XSt := ⟨ixns.map (fun kv => (⟨kv.1.sect, kv.1.atoms, verTok kv.2.imeta⟩, kv.2)), edges⟩
+    pure (xresToJson (applyExplicit nodes s xs))
+  | "run" =>
+    -- the whole of `run_molecule` up to `expand_excl`: link application, flush, explicit links
+    let inp ← inputOf (← j.getObjVal? "input")
+    let xs ← (← arrOf (← j.getObjVal? "xixns")).mapM xixnOf
+    pure (xresToJson (runMolecule inp xs))
   | "dangling" =>
     let names ← (← arrOf (← j.getObjVal? "names")).mapM strOf
     let ixns ← (← arrOf (← j.getObjVal? "ixns")).mapM bixnOf
@@ -144,6 +178,24 @@ def handle (j : Json) : Except String Json := do
     let ixns ← (← arrOf (← j.getObjVal? "ixns")).mapM bixnOf
     pure (okJson [("expected", Json.arr ((danglingWindows n nres ixns).map
       (fun i => Json.arr #[Json.str i.1, toJson i.2.1, toJson i.2.2])).toArray)])
+  | "parseedges" =>
+    -- `ff_parser_sub._parse_edges_new` on a line with two atoms
+    let ct ← strOf (← j.getObjVal? "context")
+    let negate ← (← j.getObjVal? "negate").getBool?
+    let nodes ← (← arrOf (← j.getObjVal? "nodes")).mapM strOf
+    let atomOf := fun (a : Json) => do
+      pure ({ ref := ← strOf (← a.getObjVal? "ref"), attrs := ← mattrsOf (← a.getObjVal? "attrs") } : EdgeAtom)
+    let a ← atomOf (← j.getObjVal? "a")
+    let b ← atomOf (← j.getObjVal? "b")
+    match parseEdgesNew ct negate nodes a b with
+    | .ioError => pure (okJson [("result", Json.str "IOError")])
+    | .keyError => pure (okJson [("result", Json.str "KeyError")])
+    | .edge x y attrs => pure (okJson [("result", Json.arr #[Json.str x, Json.str y, mattrsToJson attrs])])
+  | "checkorder" =>
+    -- `_check_relative_order(resids, orders)` for any list of pairs (repeated orders included)
+    let pairs ← (← arrOf (← j.getObjVal? "pairs")).mapM fun p => do
+      pure (← orderOf (← p.getArrVal? 0), ← intOf (← p.getArrVal? 1))
+    pure (okJson [("accept", toJson (checkRelativeOrderPy pairs))])
   | "order" =>
     let o1 ← orderOf (← j.getObjVal? "o1")
     let o2 ← orderOf (← j.getObjVal? "o2")
